@@ -46,6 +46,14 @@ the budget given as float (the form of the library's demos) or NumPy integer - i
 Fortran-ordered / non-contiguous starts; ragged and over-sized rank profiles of the start; validation data as
 nested lists; callbacks returning None / 0 (never stop); m_cache_scale left at its documented default 5.
 
+Input FORMS (opt keys y0 / num / call / vform, run through the budget / failing-call / callback / nswp / threshold / priority /
+conv clauses; the model is built from the requests of the run in the SAME form, the contract checks are form-independent): the
+start with float32 / alternating float32-float64 / int64 / int32 / alternating int64-float64 cores, read-only, Fortran-ordered,
+non-contiguous cores, the core list as tuple; every numeric option (m, e, nswp, tau, dr_min, dr_max, tau0, k0, e_vld,
+m_cache_scale) as np.int64 / np.float64, np.int32 / np.float32 or 0-d array (with a cache pre-filled with np.int64 -> np.float64
+pairs); every argument positionally in the documented order (pos, mix:2, mix:5, min, kwmin); validation data as int32 / uint8 /
+Fortran-ordered / non-contiguous / read-only index arrays or tuple of tuples, values as float32 / view / read-only / list.
+
 Sparse objectives (opt['sparse'], `_support`): the objective is EXACTLY zero outside one slice (first / last / middle
 mode), one fibre, one entry (corner / seeded position), a sub-box or two values of i_0.  The blocks the algorithm samples
 then have identically zero rows, the row selection sees residuals that are exactly zero on all unselected rows and -
@@ -66,7 +74,9 @@ BOUNDS = ('d in {2,3} (4, 5; 6 thorough), n_k in 1..4 (9, 12; 20 thorough), init
           '(int / float / NumPy int), every failing call, every callback sweep, thresholds around every reported value; '
           'tau {1,1.01,3}, tau0 {1,2}, k0 {1,2}; objective scale 1e-12..1e8 (1e+-30 thorough) and the zero objective; 8 kinds of '
           'exactly sparse objectives (slice / fibre / single entry / sub-box support) x growth 1/1, 1/2, 2/3 (quick: two of three combinations); 64 '
-          'argument combinations on 2 shapes')
+          'argument combinations on 2 shapes; input forms: 19 (27 thorough) combinations of start dtype f32 / mixed / i64 / read-only '
+          '/ F / view / tuple, numeric options as np.int64 / np.int32 / np.float32 / 0-d, positional call forms, validation data int32 '
+          '/ uint8 / F / view / float32 / tuple through 7 clauses (153 quick cases)')
 
 FUNCS = ('cross.cross', 'cross._func', 'cross._func_eval', 'utils._info_appr')
 STOPS = ('func', 'm', 'e', 'nswp', 'conv', 'e_vld', 'cb')
@@ -103,6 +113,12 @@ def _problem(n, rho, r0, kind, tseed, yseed, opt=None):
     if opt.get('sparse'):
         T = T * _support(n, opt['sparse'], tseed)
     Y0 = gen.tt(n, r0, yseed, kind, order=opt.get('order') or 'C')
+    if opt.get('y0'):
+        # input FORM of the start (gen.tt_form); integer dtypes: integer-valued cores (rint(100 G) for Gaussian starts; the
+        # 'ones' / 'zero' starts are integer-valued as they are)
+        if any(t in opt['y0'] for t in ('i64', 'i32', 'imixed')):
+            Y0 = [np.rint(100.0 * G) if kind == 'gauss' else G for G in Y0]
+        Y0, _ = gen.tt_form(Y0, opt['y0'])
     return T, Y0
 
 
@@ -142,9 +158,23 @@ def _support(n, how, seed):
     return M
 
 
+NUMS = ('m', 'e', 'nswp', 'tau', 'dr_min', 'dr_max', 'tau0', 'k0', 'e_vld', 'm_cache_scale')
+# documented order of the parameters of cross and their documented defaults (positional call forms, gen.call_form)
+XNAMES = ('f', 'Y0', 'm', 'e', 'nswp', 'tau', 'dr_min', 'dr_max', 'tau0', 'k0', 'info', 'cache', 'I_vld', 'y_vld', 'e_vld',
+          'cb', 'func', 'm_cache_scale', 'log')
+XDEFAULTS = (gen.call_form.REQ, gen.call_form.REQ, None, None, None, 1.1, 1, 1, 1.05, 100, None, None, None, None, None, None,
+             None, 5, False)
+
+
 def _xkw(opt):
-    """Keyword arguments of cross named in opt (tau, tau0, k0)."""
-    return {key: opt[key] for key in ('tau', 'tau0', 'k0') if key in (opt or {})}
+    """Keyword arguments of cross named in opt (tau, tau0, k0) and, under '_form', the FORM of the call (taken out by _run):
+    num = 'np64' / 'np32' / '0d' (every numeric option as NumPy scalar / 0-d array; the suite's "never" value 10**18 of
+    m_cache_scale stays a Python int - 10**18 * info['m'] leaves int64), call = 'pos' / 'mix:k' / 'min' / 'kwmin' (documented
+    parameter order)."""
+    kw = {key: opt[key] for key in ('tau', 'tau0', 'k0') if key in (opt or {})}
+    if (opt or {}).get('num') or (opt or {}).get('call'):
+        kw['_form'] = {key: opt[key] for key in ('num', 'call') if key in opt}
+    return kw
 
 
 def _pre(T, n, opt, seed):
@@ -163,8 +193,12 @@ def _pre(T, n, opt, seed):
 def _vld(T, n, seed, cnt=9, opt=None):
     g = gen.rng('C06vld', seed)
     I = np.stack([g.integers(0, k, size=cnt) for k in n], axis=1)
-    if (opt or {}).get('vform') == 'list':
+    vf = (opt or {}).get('vform')
+    if vf == 'list':
         return I.tolist(), [float(v) for v in T[tuple(I.T)]]
+    if vf:      # 'i32+F|f32', 'u8+ro', 'tuple|list', 'V|V': forms of the index array | of the values (gen.idx_form / val_form)
+        fi, _, fy = vf.partition('|')
+        return gen.idx_form(I, fi), gen.val_form(T[tuple(I.T)], fy)[0]
     return I, T[tuple(I.T)]
 
 
@@ -178,7 +212,19 @@ def _run(T, Y0, cache, none_at=None, cb_at=None, cb_ret=True, cb_else=False, pre
                         m_cache=info_['m_cache'], calls=len(f.batches), stop=info_['stop']))
         return cb_ret if (cb_at is not None and info_['nswp'] == cb_at) else cb_else
 
-    Y = teneva.cross(f, Y0, info=info, cache=(dict(pre) if pre else {}) if cache else None, cb=cb, **kw)
+    form = kw.pop('_form', None) or {}
+    kw.update(info=info, cache=(dict(pre) if pre else {}) if cache else None, cb=cb)
+    if cache and pre and form.get('num'):       # (NumPy-typed calls also get a cache pre-filled with NumPy-typed pairs)
+        kw['cache'] = {tuple(np.int64(x) for x in key): np.float64(val) for key, val in pre.items()}
+    if form.get('num'):
+        names = [q for q in NUMS if not (q == 'm_cache_scale' and kw.get(q) == HUGE)]
+        kw = gen.num_kwargs(kw, form['num'], names if form['num'] != 'float' else ('m',))     # ('float': the budget only)
+    if form.get('call'):
+        vals = [f, Y0] + [kw.get(name, dv) for name, dv in zip(XNAMES[2:], XDEFAULTS[2:])]
+        assert set(kw) <= set(XNAMES)
+        Y = gen.call_form(teneva.cross, XNAMES, vals, XDEFAULTS, form['call'])
+    else:
+        Y = teneva.cross(f, Y0, **kw)
     return Y, info, f, log
 
 
@@ -750,6 +796,29 @@ def cases(tier, seed):
                     yield from emit(cfg(n, (8, 2)[k % 2], 1 + k % 2, a, b, True, {'sparse': sp}), which, some_parts=2)
                 if (big and pick != 2) or (pick == 1 and q < 2):
                     yield from emit(cfg(n, (8, 2)[k % 2], 1 + k % 2, a, b, False, {'sparse': sp}), 'fn')
+    # (m) input FORMS: the start as float32 / mixed / integer-dtype / read-only / F-ordered / non-contiguous cores or as a tuple,
+    # every numeric option (m, e, nswp, tau, dr_min, dr_max, tau0, k0, e_vld, m_cache_scale) as NumPy scalar / 0-d array, the
+    # positional call forms in the documented parameter order, validation data in int32 / uint8 / F / view / float32 / tuple forms
+    fopts = [{'y0': 'f32'}, {'y0': 'mixed'}, {'y0': 'i64'}, {'y0': 'imixed+V'}, {'y0': 'tuple'}, {'y0': 'ro'},
+             {'y0': 'F+ro+tuple'}, {'num': 'np64'}, {'num': 'np32'}, {'num': '0d'}, {'call': 'pos'}, {'call': 'mix:2'},
+             {'call': 'kwmin'}, {'vform': 'i32+F'}, {'vform': 'u8+ro|f32'}, {'vform': 'V|V+ro'}, {'vform': 'tuple|list'},
+             {'y0': 'f32+tuple', 'num': 'np32', 'call': 'pos', 'vform': 'i32+V|f32'}, {'num': 'np64', 'tau': 1.5, 'tau0': 1.25, 'k0': 3}]
+    if big:
+        fopts += [{'y0': 'i32'}, {'y0': 'mixed1+V'}, {'num': 'np32', 'call': 'pos'}, {'num': '0d', 'y0': 'ro+tuple'},
+                  {'call': 'min'}, {'call': 'mix:5'}, {'vform': 'i64+F+ro|f32+ro'}, {'num': 'float'}]
+    for j, o in enumerate(fopts):
+        for q, n in enumerate(some + ([[2, 2]] if big else [])):
+            if not big and (j + q) % 2:
+                continue                            # quick: one of the two shapes per form, alternating
+            k += 1
+            a, b = ((1, 2), (0, 1), (1, 1), (0, 0))[k % 4]
+            isint = any(t in o.get('y0', '') for t in ('i64', 'i32', 'imixed'))
+            kind = 'ones' if (isint and k % 2) else 'gauss'
+            which = 'bfcn' + ('tp' if ('vform' in o or 'num' in o or 'call' in o or big) else '') + ('v' if ('num' in o or big) else '')
+            c = cfg(n, (8, 2)[k % 2], 2 if kind == 'ones' else 1 + k % 2, a, b, bool(k % 2), o, kind=kind)
+            if 'num' in o and c['cache']:
+                c['opt'] = dict(o, prefill=5)       # (the pre-filled pairs are NumPy-typed as well, see _run)
+            yield from emit(c, which, some_parts=2)
     g = gen.rng('C06v', seed)
     for n in ([3, 3], [2, 3, 2]):
         for bits in range(64):
